@@ -387,6 +387,8 @@ func init() {
 			nv := freshValue("layer", lv.typ())
 			st.assumeValid(nv)
 			ex.assign(lv, nv, st, c)
+			// ghost lastreadof(T): the layer as decoded
+			st.ghost["bin.last:"+typeKey(lv.typ())] = nv
 		}
 		// *decoded
 		if u, ok := ast.Unparen(c.Args[1]).(*ast.UnaryExpr); ok && u.Op == token.AND {
